@@ -851,8 +851,18 @@ class ProgGen:
                 cs = rng.sample(range(0, 6), 3)
                 body = ' '.join('case %d: %s %s' % (c, ' '.join(self.stmts(vars_, depth - 1, 1)),
                                                      'break;' if rng.random() < 0.8 else '') for c in cs)
-                out.append('switch ((%s) & 7) { %s default: %s break; }' % (self.expr(vars_, 1), body,
-                                                                            ' '.join(self.stmts(vars_, depth - 1, 1))))
+                if rng.random() < 0.35:
+                    nt, span = rng.choice([('unsigned char', 256), ('signed char', 256), ('unsigned short', 65536),
+                                           ('short', 65536)])
+                    v = rng.choice([1, 44, 100, 127])
+                    body2 = ' '.join('case %d: %s %s' % (c, ' '.join(self.stmts(vars_, depth - 1, 1)),
+                                                          'break;' if rng.random() < 0.8 else '')
+                                     for c in (v + span, v - span, 300 if v != 44 else 301, v))
+                    out.append('switch ((%s)(%s ? %d : %d)) { %s default: %s break; }' % (
+                        nt, self.expr(vars_, 1), v, v + 1, body2, ' '.join(self.stmts(vars_, depth - 1, 1))))
+                else:
+                    out.append('switch ((%s) & 7) { %s default: %s break; }' % (self.expr(vars_, 1), body,
+                                                                                ' '.join(self.stmts(vars_, depth - 1, 1))))
             else:
                 self.tmp += 1
                 k = 'd%d' % self.tmp
@@ -1229,7 +1239,7 @@ def coq_stmt(s):
     if k == 'for':
         return '(SFor %s %s %s %s)' % (coq_stmt(s[1]), coq_cx(s[2]), coq_cx(s[3]), coq_stmt(s[4]))
     if k == 'switch':
-        lab = lambda lb: 'LNone' if not lb else ('(LCase %d)' % lb[1] if lb[0] == 'case' else 'LDefault')   # noqa: E731
+        lab = lambda lb: 'LNone' if not lb else ('(LCase %s)' % S.coq_z(lb[1]) if lb[0] == 'case' else 'LDefault')   # noqa: E731
         return '(SSwitch %s [%s])' % (coq_cx(s[1]), '; '.join('(%s, %s)' % (lab(lb), coq_stmt(x)) for (lb, x) in s[2]))
     return {'break': 'SBreak', 'continue': 'SContinue'}.get(k) or '(SReturn %s)' % coq_cx(s[1])
 
@@ -1323,10 +1333,30 @@ class StmtGen:
             body = ('seq', ('expr', ('asg', d, ('bin', '+', ('var', d), lit(1)))), body)
             return ('seq', ('decl', d, lit(0)), ('do', body, ('bin', '<', ('var', d), lit(rng.randint(1, 3))))), avail + [d]
         if r < 0.88:    # switch (e & 3) { case..: ... default: ... } with fall through, break, unlabelled statements
-            ctl = self.ex(avail, 1, effects=self.rng.random() < 0.3)
-            if rng.random() < 0.7:
-                ctl = ('bin', '&', ctl, lit(3))
-            labels = rng.sample([0, 1, 2, 3, 5], rng.randint(1, 3))
+            if rng.random() < 0.4:
+                # narrow controlling expression; labels outside its range that collide with its values after wrapping to
+                # the narrow type (C11 6.8.4.2p5: labels are converted to the PROMOTED type, so they never match)
+                nt = rng.choice(['char', 'uchar', 'short', 'ushort', 'uchar'])
+                lo, hi = S.limits(self.dm, nt)
+                span = hi - lo + 1
+                vals = rng.sample([v for v in (0, 1, 44, 100, 127, -1, -128, 200, 255, 1000, 65535, -32768) if lo <= v <= hi], 2)
+                ctl = ('cast', nt, ('cond', ('var', rng.choice(avail)), lit(vals[0]), lit(vals[1])))
+                pt = S.promote(self.dm, nt)
+                cand = [vals[0] + span, vals[1] - span, vals[0], vals[1] + span, 300, -1, 65536 + vals[1], vals[0] - span]
+                rng.shuffle(cand)
+                labels, seen_l = [], set()
+                for z in cand:
+                    if not S.fits(self.dm, 'int', z) or S.convert(self.dm, pt, z) in seen_l:
+                        continue
+                    seen_l.add(S.convert(self.dm, pt, z))
+                    labels.append(z)
+                    if len(labels) >= rng.randint(2, 4):
+                        break
+            else:
+                ctl = self.ex(avail, 1, effects=self.rng.random() < 0.3)
+                if rng.random() < 0.7:
+                    ctl = ('bin', '&', ctl, lit(3))
+                labels = rng.sample([0, 1, 2, 3, 5], rng.randint(1, 3))
             items = []
             dpos = rng.randint(0, len(labels)) if rng.random() < 0.7 else None
             for j, kk in enumerate(labels):
@@ -1430,7 +1460,10 @@ def statements_model(ctx, n, n_model):
         mod, err = compile_c(march, src)
         if mod is None:
             st['compile_error'] += 1
-            ctx.failed_stages.append(('statements_model', 'c_to_ir failed on a generated function: %s: %s' % (src, err)))
+            ctx.failed_stages.append(('statements_model', 'c_to_ir failed on a generated function: %s' % err))
+            ctx.violation({'fn': 'c_to_ir statements', 'key': 'stmt-compile/%s' % err[:40], 'target': march, 'source': src,
+                           'expected': 'compiles (valid C)', 'actual': err,
+                           'how_to_replay': 'ppci.api.c_to_ir(io.StringIO(source), "%s")' % march})
             continue
         cls = stmt_fragment_class(march, te, rt, d)
         if i < n_model:
